@@ -229,7 +229,14 @@ class Ctx:
             cone += [f for f in cone_of(vfile) if f not in cone]
             if not vfile.startswith('Properties/'):
                 continue
-            rc, out = sh(['coqc', '-Q', '.', 'DS', vfile], timeout=900, cwd=COQ)
+            # output goes to a scratch .vo so the compiled tree is not rewritten; under the build lock
+            # so that no concurrent make changes a dependency while this file is being compiled
+            tmpdir = os.path.join(self.work, 'pa')
+            os.makedirs(tmpdir, exist_ok=True)
+            tmpvo = os.path.join(tmpdir, os.path.basename(vfile) + 'o')
+            with open(os.path.join(WORK, 'coq.lock'), 'w') as lock:
+                fcntl.flock(lock, fcntl.LOCK_EX)
+                rc, out = sh(['coqc', '-Q', '.', 'DS', '-o', tmpvo, vfile], timeout=900, cwd=COQ)
             if rc != 0:
                 self.broken.append(('proof', vfile, out[-1500:]))
                 return False
